@@ -179,6 +179,7 @@ where
                     let in_current = compute_in_current_bool(&computer);
                     add_defeated_in_current_to_missing(&computer, &mut missing_in_one_maximal);
                     let arg_is_missing = !in_current[arg.id()];
+                    let missing_in_current = in_current.iter().map(|b| !*b).collect::<Vec<bool>>();
                     if first_maximal {
                         in_all_maximal = Some(in_current);
                     } else {
@@ -195,7 +196,7 @@ where
                         break (
                             false,
                             vec![],
-                            missing_in_one_maximal,
+                            missing_in_current,
                             Some(computer.current().to_vec()),
                         );
                     }
